@@ -43,8 +43,14 @@ pub fn run(ctx: &mut Ctx) {
         let c = c % 65536;
         let mut case = Case::new(&format!("linear-{}", i));
         case.with_model = !big;
-        for data in [&a, &b, &ab, &zero] {
-            case.push(cfg.new_line("E"));
+        // half of the time the four encodes are consecutive rounds of ONE encoder (implicit reset only): the code is
+        // linear whatever the object did before
+        let reuse = ctx.rng.chance(1, 2);
+        ctx.count("object", if reuse { "one encoder, four rounds" } else { "fresh encoder per round" });
+        for (round, data) in [&a, &b, &ab, &zero].into_iter().enumerate() {
+            if round == 0 || !reuse {
+                case.push(cfg.new_line("E"));
+            }
             for s in data.iter() {
                 case.push(format!("E add {}", to_hex(s)));
             }
